@@ -316,7 +316,15 @@ GenericRows(names) == Rws(names, {"p"}, 1, {"v4", "m22"}, One, "unknown", Unknow
 \* ---------------------------------------------------------------- units of a case
 \* base: every operand of dimension L in 2^KL, T in 2^KT; variant: pattern "all" shifts every operand of the
 \* re-expressed dimension by r, pattern "o<i>" only operand i (the other operands of that dimension keep their unit)
-KOf(d, kl, kt) == IF d = "L" THEN kl ELSE kt
+\* dimensions "iL" = 1/length and "iT" = 1/time: operands whose units cancel against an L / T operand, leaving a
+\* dimensionless unit whose SCALE is not one (s x kHz = 1000); their base scale: 0 on ordinary units (index of 1/m, Hz),
+\* -1 where all scales must stay <= 0 (integer data), 1 otherwise
+KInv(kl, kt) == IF kl = 0 /\ kt = 0 THEN 0 ELSE IF kl <= 0 /\ kt <= 0 THEN -1 ELSE 1
+KOf(d, kl, kt) == CASE d = "L" -> kl [] d = "T" -> kt [] OTHER -> KInv(kl, kt)
+\* the reciprocal companion of a dimension assignment with two different dimensions: every T operand becomes 1/length
+HasBoth(da) == (\E i \in DOMAIN da : da[i] = "L") /\ (\E i \in DOMAIN da : da[i] = "T")
+Recip(da) == [i \in DOMAIN da |-> IF da[i] = "T" THEN "iL" ELSE da[i]]
+RecipT(da) == [i \in DOMAIN da |-> IF da[i] = "L" THEN "iT" ELSE da[i]]
 BaseUnits(da, kl, kt) == [i \in DOMAIN da |-> <<da[i], KOf(da[i], kl, kt)>>]
 Patterns(da) == {"all"} \cup (IF Len(da) >= 2 THEN {"o1", "o2"} ELSE {}) \cup (IF Len(da) >= 3 THEN {"o3"} ELSE {})
 PatIdx(p) == CASE p = "o1" -> 1 [] p = "o2" -> 2 [] p = "o3" -> 3 [] OTHER -> 0
@@ -326,7 +334,7 @@ VarUnits(da, base, p, rd, r) ==
      IF (p = "all" /\ da[i] = rd) \/ (p # "all" /\ PatIdx(p) = i) THEN <<da[i], base[i][2] + r>> ELSE base[i]]
 
 \* ---------------------------------------------------------------- applying a signature to units
-DimOf(d) == IF d = "L" THEN <<1, 0>> ELSE <<0, 1>>
+DimOf(d) == CASE d = "L" -> <<1, 0>> [] d = "T" -> <<0, 1>> [] d = "iL" -> <<-1, 0>> [] d = "iT" -> <<0, -1>>
 DegAt(deg, i, n) == IF i <= n THEN deg[i] ELSE 0
 \* doubled exponent vector <<2 eL, 2 eT>> of  prod_i u_i^(deg_i/2)
 ExpDims(deg, us) ==
@@ -357,8 +365,8 @@ NotCompared(o) == o.kind \in {"text", "other"}
 NeedExact(c, ob) == ob.dk \in {"b", "i", "u"} \/ (c.exact /\ ~c.real)
 CovOut(c, ob, ov, cm) ==
   \/ NotCompared(ob) \/ NotCompared(ov)
-  \/ /\ ob.kind = ov.kind
-     /\ (ob.kind = "unyt" => (ob.dims = ov.dims /\ ob.odd = ov.odd))
+  \/ /\ (ob.kind = ov.kind \/ (Unitless(ob) /\ Unitless(ov)))   \* a dimensionless unyt object and a bare array are both unit-free
+     /\ ((ob.kind = "unyt" /\ ov.kind = "unyt") => (ob.dims = ov.dims /\ ob.odd = ov.odd))
      /\ cm.shp
      /\ (c.nocov \/ (IF NeedExact(c, ob) THEN cm.ex ELSE cm.tol))
 Both(o) == o.b.k = "ok" /\ o.v.k = "ok"
@@ -418,8 +426,11 @@ ImplRun(c, us) ==
           IF c.io.o[j].bare THEN [kind |-> "bare", dims |-> <<0, 0>>, lg |-> 0]
           ELSE [kind |-> "unyt", dims |-> ExpDims(c.io.o[j].deg, us), lg |-> ExpLg(c.io.o[j].deg, us)]]]
 \* observed run against predicted run (out= buffers: relabelled with the unit of the first output)
-TOutOK(m, ob, real) == /\ m.kind = ob.kind
-                       /\ (m.kind = "unyt" => (m.dims = ob.dims /\ (real \/ m.lg = ob.lg)))
+\* a predicted dimensionless unit: the handlers may fold its scale into the numbers or hand the result out bare when the
+\* scale is one - only "carries no dimension" is compared (the numbers are P's matter)
+TOutOK(m, ob, real) == IF m.kind = "unyt" /\ m.dims = <<0, 0>> THEN Unitless(ob)
+                       ELSE /\ m.kind = ob.kind
+                            /\ (m.kind = "unyt" => (m.dims = ob.dims /\ (real \/ m.lg = ob.lg)))
 TRunOK(c, m, run) ==
   \/ m.k = "na" \/ run.k = "inapplicable"
   \/ (m.k = "raise" /\ run.k = "raise")
